@@ -30,7 +30,7 @@ ASSUMPTIONS = [
 REAL_COMPONENTS = c15.REAL_COMPONENTS
 STUBBED_COMPONENTS = c15.STUBBED_COMPONENTS
 
-MUTATING = {"open-w", "write", "close", "chmod", "replace", "remove", "truncate", "utime", "copy-open", "copy-data", "copy-stat", "link", "mkdir", "rmdir"}
+MUTATING = {"open-w", "write", "write-raw", "close", "chmod", "replace", "remove", "truncate", "utime", "copy-open", "copy-data", "copy-stat", "link", "mkdir", "rmdir"}
 READ_FAULTS = {"open-r": [["err", errno.ENOENT], ["err", errno.EACCES], ["err", errno.EMFILE]], "read": [["err", errno.EIO]], "stat": [["err", errno.EACCES]]}
 
 NOFIX_CFGS = {
